@@ -205,23 +205,28 @@ theorem lemma_mem_take_flatten {α : Type} (groups : List (List α)) (k : Nat) (
   obtain ⟨g, hg, he⟩ := h
   exact ⟨g, List.mem_of_mem_take hg, he⟩
 
-/-- what the loop returned is a prefix (in leaf order) of the uncapped error list -/
+/-- what the loop returned is a prefix (in leaf order, then in the validator's order within a leaf) of the
+    uncapped error list -/
 theorem partial_prefix (pm : List Path) (rules : List Rule) (o : Opts) :
-    ∃ k, (fieldsOf (validatePartial pm rules o)).Perm
-      ((partialGroups mkErr (leafPaths pm) (ownTags rules) o).take k).flatten := by
+    ∃ k n, (fieldsOf (validatePartial pm rules o)).Perm
+      (((partialGroups mkErr (leafPaths pm) (ownTags rules) o).take k).flatten.take n) := by
   obtain ⟨k, _, h1, _, _⟩ := capLoop_spec o.maxErrors (partialGroups mkErr (leafPaths pm) (ownTags rules) o) []
-  refine ⟨k, ?_⟩
   have := partialFrom_fields mkErr (leafPaths pm) (ownTags rules) o
+  unfold trimCap at this
   rw [h1, List.nil_append] at this
-  exact this
+  by_cases hf : (capLoop o.maxErrors (partialGroups mkErr (leafPaths pm) (ownTags rules) o) []).2 = true
+  · rw [if_pos hf] at this
+    exact ⟨k, o.maxErrors, this⟩
+  · rw [if_neg hf] at this
+    exact ⟨k, _, by rw [List.take_length]; exact this⟩
 
 /-- **soundness** — every reported error concerns a present leaf and is a violation of that
     leaf's own rule; in particular never an absent field -/
 theorem partial_sound (pm : List Path) (rules : List Rule) (o : Opts) (e : FieldErr)
     (he : e ∈ fieldsOf (validatePartial pm rules o)) :
     IsLeaf pm e.path ∧ ∃ v ∈ ownTags rules e.path, e = mkErr o e.path v := by
-  obtain ⟨k, hk⟩ := partial_prefix pm rules o
-  have h1 := lemma_mem_take_flatten _ k e (hk.mem_iff.mp he)
+  obtain ⟨k, n, hk⟩ := partial_prefix pm rules o
+  have h1 := lemma_mem_take_flatten _ k e (List.mem_of_mem_take (hk.mem_iff.mp he))
   obtain ⟨p, hp, v, hv, rfl⟩ := (lemma_mem_groups _ _ _ _).mp h1
   have hpl : p ∈ leafPaths pm := List.mem_of_mem_take hp
   exact ⟨(leaf_fixed_correct pm p).mp hpl, v, hv, rfl⟩
@@ -241,6 +246,7 @@ theorem partial_complete (pm : List Path) (rules : List Rule) (o : Opts)
     rw [← partialFrom_trunc]; exact ht
   have hk := h2 ht'
   have hf := partialFrom_fields mkErr (leafPaths pm) (ownTags rules) o
+  simp only [trimCap, ht', Bool.false_eq_true, if_false] at hf
   rw [h1, List.nil_append, hk, List.take_length] at hf
   apply hf.mem_iff.mpr
   apply (lemma_mem_groups _ _ _ _).mpr
@@ -295,23 +301,19 @@ theorem truncated_only_when_full (pm : List Path) (rules : List Rule) (o : Opts)
     o.maxErrors > 0 ∧ (fieldsOf (validatePartial pm rules o)).length ≥ o.maxErrors := by
   obtain ⟨_, _, _, _, h3⟩ := capLoop_spec o.maxErrors (partialGroups mkErr (leafPaths pm) (ownTags rules) o) []
   rw [validatePartial, partialFrom_trunc] at ht
-  have := h3 ht
-  rw [validatePartial, (partialFrom_fields mkErr (leafPaths pm) (ownTags rules) o).length_eq]
-  exact this
+  have h := h3 ht
+  have hc := (trimCap_capped o.maxErrors h.1 (partialGroups mkErr (leafPaths pm) (ownTags rules) o)).2.1 ht
+  rw [validatePartial, (partialFrom_fields mkErr (leafPaths pm) (ownTags rules) o).length_eq, hc]
+  exact ⟨h.1, Nat.le_refl _⟩
 
-/-- with single-field rules (at most one error per field) the list never exceeds the maximum, is
-    exactly full when `Truncated`, and below the maximum otherwise -/
-theorem errors_capped (pm : List Path) (rules : List Rule) (o : Opts) (hm : o.maxErrors > 0)
-    (hs : ∀ p, (ownTags rules p).length ≤ 1) :
+/-- **capped at the configured maximum** — for every rule table (a field may yield any number of errors, e.g. a
+    `dive` rule failing on several elements: after the repair of K05l the list is cut): it never exceeds the
+    maximum, is exactly full when `Truncated`, and below the maximum otherwise -/
+theorem errors_capped (pm : List Path) (rules : List Rule) (o : Opts) (hm : o.maxErrors > 0) :
     (fieldsOf (validatePartial pm rules o)).length ≤ o.maxErrors ∧
     (truncOf (validatePartial pm rules o) = true → (fieldsOf (validatePartial pm rules o)).length = o.maxErrors) ∧
     (truncOf (validatePartial pm rules o) = false → (fieldsOf (validatePartial pm rules o)).length < o.maxErrors) := by
-  have hg : ∀ g ∈ partialGroups mkErr (leafPaths pm) (ownTags rules) o, g.length ≤ 1 := by
-    intro g hg
-    simp only [partialGroups, List.mem_map] at hg
-    obtain ⟨p, _, rfl⟩ := hg
-    simpa using hs p
-  have := capLoop_capped o.maxErrors hm _ hg [] (by simpa using hm)
+  have := trimCap_capped o.maxErrors hm (partialGroups mkErr (leafPaths pm) (ownTags rules) o)
   rw [validatePartial, partialFrom_trunc, (partialFrom_fields mkErr (leafPaths pm) (ownTags rules) o).length_eq]
   exact this
 
@@ -485,8 +487,7 @@ theorem lemma_errorsOK_of (want : List Want) (o : Opts) (single : Bool) (obs : O
 /-- **partial validation, model ⊨ oracle**: for every presence set, rule table and option set the
     model's result passes `errorsOK` against the declaratively expected error list — the check the
     driver runs on what the real code returned -/
-theorem errorsOK_model_partial (pm : List Path) (rules : List Rule) (o : Opts) (single : Bool)
-    (hs : single = true → ∀ p, (ownTags rules p).length ≤ 1) :
+theorem errorsOK_model_partial (pm : List Path) (rules : List Rule) (o : Opts) (single : Bool) :
     errorsOK (expectedErrs pm rules o) o single (validatePartial pm rules o) = true := by
   have hexp : expectedErrs pm rules o =
       ((leafPaths pm).take (maxLeaves o)).flatMap fun p =>
@@ -499,8 +500,8 @@ theorem errorsOK_model_partial (pm : List Path) (rules : List Rule) (o : Opts) (
   have hmemL : ∀ e ∈ fieldsOf (validatePartial pm rules o),
       ∃ p ∈ (leafPaths pm).take (maxLeaves o), ∃ v ∈ ownTags rules p, e = mkErr o p v := by
     intro e he
-    obtain ⟨k, hk⟩ := partial_prefix pm rules o
-    exact (lemma_mem_groups _ _ _ _).mp (lemma_mem_take_flatten _ k e (hk.mem_iff.mp he))
+    obtain ⟨k, n, hk⟩ := partial_prefix pm rules o
+    exact (lemma_mem_groups _ _ _ _).mp (lemma_mem_take_flatten _ k e (List.mem_of_mem_take (hk.mem_iff.mp he)))
   apply lemma_errorsOK_of
   · intro e he
     obtain ⟨p, hp, v, hv, rfl⟩ := hmemL e he
@@ -520,10 +521,11 @@ theorem errorsOK_model_partial (pm : List Path) (rules : List Rule) (o : Opts) (
     have ht' : (capLoop o.maxErrors (partialGroups mkErr (leafPaths pm) (ownTags rules) o) []).2 = false := by
       rw [← partialFrom_trunc]; exact ht
     have hf := partialFrom_fields mkErr (leafPaths pm) (ownTags rules) o
+    simp only [trimCap, ht', Bool.false_eq_true, if_false] at hf
     rw [h1, List.nil_append, h2 ht', List.take_length] at hf
     exact hf.mem_iff.mpr ((lemma_mem_groups _ _ _ _).mpr ⟨p, hp, v, hv, rfl⟩)
-  · intro hm hsingle
-    exact (errors_capped pm rules o hm (hs hsingle)).1
+  · intro hm _
+    exact (errors_capped pm rules o hm).1
   · exact truncated_only_when_full pm rules o
   · intro r hr
     exact partialFrom_some_nonempty _ _ _ _ r hr
@@ -757,6 +759,16 @@ theorem embedded_field_asis_witness :
     ownTags [⟨"id".toList, true, [⟨"min".toList, ["id".toList]⟩], false, true, true, some ["min".toList]⟩] "id".toList ≠ [] := by
   decide
 
+/-- K05l, as shipped: a leaf that yields several errors (`dive,min=3` on three short elements) put all of them into
+    the list although `WithMaxErrors(1)` was given; after the repair the list is cut to the maximum -/
+theorem multi_error_leaf_asis_witness :
+    let own : Path → List Viol := fun _ => [⟨"min".toList, []⟩, ⟨"min".toList, []⟩, ⟨"min".toList, []⟩]
+    (partialLoopK05l mkErr own ⟨1, 0, []⟩ ["tags".toList] []).fields.length = 3 ∧
+    (partialLoopK05l mkErr own ⟨1, 0, []⟩ ["tags".toList] []).truncated = true ∧
+    (partialLoop mkErr own ⟨1, 0, []⟩ ["tags".toList] []).fields.length = 1 ∧
+    (partialLoop mkErr own ⟨1, 0, []⟩ ["tags".toList] []).truncated = true := by
+  decide
+
 /-- K05f: as shipped only the error's own path was put to the redactor: an error on `kids` whose
     printed value reveals `kids.1.secret` was not hidden although the redactor covers that path -/
 theorem nested_redaction_asis_witness :
@@ -878,24 +890,13 @@ theorem partialT_sound (pm : List Path) (root : Shape) (var : VarTable) (o : Opt
   | none => simp [hr] at hv
   | some _ => rfl
 
-/-- capped, `Truncated` only when full, sorted — with the resolution inside -/
-theorem partialT_capped (pm : List Path) (root : Shape) (var : VarTable) (o : Opts) (hm : o.maxErrors > 0)
-    (hs : ∀ loc t, (varLookup var loc t).length ≤ 1) :
+/-- capped, `Truncated` only when full — with the resolution inside, for every `Var` table (no single-error
+    hypothesis: K05l repaired) -/
+theorem partialT_capped (pm : List Path) (root : Shape) (var : VarTable) (o : Opts) (hm : o.maxErrors > 0) :
     (fieldsOf (validatePartialT pm root var o)).length ≤ o.maxErrors ∧
     (truncOf (validatePartialT pm root var o) = true → (fieldsOf (validatePartialT pm root var o)).length = o.maxErrors) := by
   rw [validatePartialT_eq]
-  have := errors_capped pm (inducedRules root var (leafPaths pm)) o hm (by
-    intro p
-    unfold ownTags ruleFor
-    cases hf : (inducedRules root var (leafPaths pm)).find? (fun r => r.path == p) with
-    | none => simp
-    | some r =>
-      obtain ⟨q, _, rfl⟩ := List.mem_map.mp (List.mem_of_find?_eq_some hf)
-      simp only [if_true]
-      unfold ownTagsT
-      cases ruleAt root q with
-      | none => simp
-      | some lt => simpa using hs lt.1 lt.2)
+  have := errors_capped pm (inducedRules root var (leafPaths pm)) o hm
   exact ⟨this.1, this.2.1⟩
 
 theorem partialT_sorted (pm : List Path) (root : Shape) (var : VarTable) (o : Opts) :
@@ -912,11 +913,10 @@ theorem partialT_perm (pm₁ pm₂ : List Path) (h : pm₁.Perm pm₂) (root : S
 /-- **model ⊨ the oracle the driver runs**, for the resolving model: whenever the independently computed
     rule table agrees with the model's resolution at the leaves -/
 theorem errorsOK_model_partialT (pm : List Path) (root : Shape) (var : VarTable) (rules : List Rule) (o : Opts)
-    (single : Bool) (hag : ∀ p ∈ leafPaths pm, ownTags rules p = ownTagsT root var p)
-    (hs : single = true → ∀ p, (ownTags rules p).length ≤ 1) :
+    (single : Bool) (hag : ∀ p ∈ leafPaths pm, ownTags rules p = ownTagsT root var p) :
     errorsOK (expectedErrs pm rules o) o single (validatePartialT pm root var o) = true := by
   rw [validatePartialT_of_agree pm root var rules o hag]
-  exact errorsOK_model_partial pm rules o single hs
+  exact errorsOK_model_partial pm rules o single
 
 /-- non-vacuity of `errorsOK_model_partialT` / `validatePartialT_of_agree`: for every input there is a rule table that
     agrees with the model's resolution at the leaves — the one it induces -/
